@@ -85,22 +85,22 @@ VaFam == Static(<< Obj("O", {<<>>, <<"1">>, <<"a", ",", "b">>}, 1),
                                   <<"[", "__VA_ARGS__", "]">>}, 2),
                    Va("H", <<"x">>, {<<"x">>, <<"__VA_ARGS__">>, <<"#", "__VA_ARGS__">>, <<",", "##", "__VA_ARGS__">>,
                                      <<"__VA_OPT__", "(", ",", ")">>, <<"__VA_OPT__", "(", "x", ")">>, <<"a">>, <<"#", "x">>,
-                                     <<"G", "(", "__VA_ARGS__", ")">>}, 3) >>, VaTexts)
+                                     <<"G", "(", "__VA_ARGS__", ")">>}, 2) >>, VaTexts)
 
 \* ch: chains of object-like macros through a function-like one
 ChTexts == << <<"O">>, <<"P">>, <<"G","(","O",")">>, <<"G","(","G","(","a",")",")">>, <<"G","(","P",")","+","O">>,
               <<"O","P","O">>, <<"G","(",")">>, <<"G">>, <<"G","(","\"G(1)\"",")">>, <<"P","(","1",")">> >>
 ChFam == Static(<< Obj("O", {<<"a">>, <<"1">>, <<"+">>, <<"O">>, <<"P">>, <<"G", "(", "a", ")">>, <<"G", "(", "O", ")">>, <<"G", "(", "P", ")">>, <<"G">>}, 2),
-                   Obj("P", {<<"a">>, <<"O">>, <<"P">>, <<"+">>, <<"G", "(", "O", ")">>, <<"G">>}, 2),
-                   Fn("G", <<"x">>, {<<"x">>, <<"O">>, <<"P">>, <<"(", "x", ")">>, <<"#", "x">>, <<"G", "(", "x", ")">>, <<"+">>}, 2) >>, ChTexts)
+                   Obj("P", {<<"a">>, <<"O">>, <<"P">>, <<"+">>, <<"G", "(", "O", ")">>, <<"G">>}, 1),
+                   Fn("G", <<"x">>, {<<"x">>, <<"P">>, <<"(", "x", ")">>, <<"#", "x">>, <<"G", "(", "x", ")">>, <<"O", "x">>, <<"x", "+">>}, 1) >>, ChTexts)
 
 \* ne: nested calls between F(x) and G(x, y)
 NeTexts == << <<"F","(","a",")">>, <<"G","(","a",",","b",")">>, <<"F","(","G","(","a",",","b",")",")">>,
               <<"G","(","F","(","a",")",",","F","(","b",")",")">>, <<"F","(","F","(","F","(","a",")",")",")">>,
               <<"G","(","(","a",",","b",")",",","F",")">>, <<"F","(","G",")","(","a",",","b",")">>,
               <<"G","(",",",")">>, <<"F","(",")">>, <<"F","(","G","(","F","(","1",")",",","2",")",")">> >>
-NeFam == Static(<< Fn("F", <<"x">>, {<<"x">>, <<"a">>, <<"+">>, <<"(", "x", ")">>, <<"G", "(", "x", ",", "a", ")">>,
-                                     <<"G", "(", "a", ",", "x", ")">>, <<"G", "(", "x", ",", "x", ")">>, <<"F", "(", "x", ")">>, <<"G">>}, 2),
+NeFam == Static(<< Fn("F", <<"x">>, {<<"x">>, <<"a">>, <<"(", "x", ")">>, <<"G", "(", "x", ",", "a", ")">>,
+                                     <<"G", "(", "a", ",", "x", ")">>, <<"F", "(", "x", ")">>, <<"G">>}, 2),
                    Fn("G", <<"x", "y">>, {<<"x">>, <<"y">>, <<"+">>, <<",">>, <<"F", "(", "x", ")">>, <<"F", "(", "y", ")">>,
                                           <<"G", "(", "y", ",", "x", ")">>, <<"F">>, <<"[", "x", "]">>}, 2) >>, NeTexts)
 
